@@ -135,13 +135,23 @@ func (c *Ctx) failover(name string) *FO {
 		return fo
 	}
 	fo.LockPath = fmt.Sprintf("$%d.lock", fo.Recv.ID)
+	if chain := cn.lockChain[name]; len(chain) > 0 {
+		fo.LockPath = fmt.Sprintf("$%d.%s", fo.Recv.ID, strings.Join(chain, "."))
+	}
 	c.R.Func(name + ".Get")
 	c.R.Count("paths:"+name+".Get", len(fo.Paths))
 	return fo
 }
 
+func klTypeOf(sib string) string {
+	if sib == "FailoverOf" {
+		return "klOf"
+	}
+	return "kl"
+}
+
 func isKeyLocksMap(ev *pw.Event) bool {
-	return ev.Recv != nil && ev.Recv.Kind == pw.KField && ev.Recv.Field != nil && ev.Recv.Field.Name() == "keyLocks"
+	return ev.Recv != nil && ev.Recv.Kind == pw.KField && ev.Recv.Field != nil && fname(ev.Recv.Field) == "keyLocks"
 }
 
 // lookup returns the election lookup of a path (nil for pre-election exits).
@@ -206,7 +216,7 @@ func isBuilderCall(fo *FO, ev *pw.Event) bool {
 func isRelease(ev *pw.Event) bool { return ev.Kind == pw.EvMapDelete && isKeyLocksMap(ev) }
 
 func isKLClose(ev *pw.Event) bool {
-	return ev.Kind == pw.EvClose && ev.Field != nil && ev.Field.Name() == "lock"
+	return ev.Kind == pw.EvClose && ev.Field != nil && fname(ev.Field) == "lock"
 }
 
 func countReleases(evs []*pw.Event) int {
@@ -352,7 +362,7 @@ func (c *Ctx) c01Sibling(fo *FO) {
 				}
 			}
 			// the inserted entry is a fresh key lock with its own channel (waiters block on it, the release closes it)
-			if iv := pointee(cl.insert.Value); iv == nil || iv.Kind != pw.KAlloc || iv.Fields["lock"] == nil || iv.Fields["lock"].Kind != pw.KAlloc {
+			if iv := pointee(cl.insert.Value); iv == nil || iv.Kind != pw.KAlloc || iv.Fields[actualField(klTypeOf(fo.Name), "lock")] == nil || iv.Fields[actualField(klTypeOf(fo.Name), "lock")].Kind != pw.KAlloc {
 				d, t := c.pathDetail(fo, p, "the entry inserted into keyLocks is not a freshly built key lock with a freshly made channel")
 				r.Bad("R01.2", cons, "insert-not-fresh-entry", c.Pos(cl.insert.Pos), d, t)
 			}
@@ -586,10 +596,16 @@ func (c *Ctx) c01WhoMutates() {
 			if s == nil || s.Kind() != types.FieldVal {
 				return true
 			}
+			fv, _ := s.Obj().(*types.Var)
 			owner := namedTypeName(s.Recv())
-			fname := s.Obj().Name()
-			isKL := fname == "keyLocks" && (owner == "Failover" || owner == "FailoverOf")
-			isCh := fname == "lock" && (owner == "kl" || owner == "klOf") && what == "close"
+			if fv != nil {
+				if o, ok := cn.fieldOwner[fv.Origin()]; ok {
+					owner = o
+				}
+			}
+			fieldN := fname(fv)
+			isKL := fieldN == "keyLocks" && (owner == "Failover" || owner == "FailoverOf")
+			isCh := fieldN == "lock" && (owner == "kl" || owner == "klOf") && what == "close"
 			if !isKL && !isCh {
 				return true
 			}
@@ -600,7 +616,7 @@ func (c *Ctx) c01WhoMutates() {
 				if roots := c.exportedRootsOf(fn); !fn.Exported() && len(roots) == 1 && strings.HasSuffix(roots[0], ".Get") {
 					return true
 				}
-				r.Bad("R01.5", name, what+"-outside-Get", c.Pos(x.Pos()), fmt.Sprintf("%s of %s.%s outside Get (and outside helpers reachable only from Get)", what, owner, fname), nil)
+				r.Bad("R01.5", name, what+"-outside-Get", c.Pos(x.Pos()), fmt.Sprintf("%s of %s.%s outside Get (and outside helpers reachable only from Get)", what, owner, fieldN), nil)
 			}
 			return true
 		})
